@@ -62,6 +62,24 @@ def neutral(op):
     return ('?', repr(op))
 
 
+def full_dump(op, depth=0):
+    """EVERY instance attribute of every node (also those a dataclass excludes from == and repr), for attribute-level comparison."""
+    if depth > 200:
+        return '...'
+    if isinstance(op, (list, tuple)):
+        return [full_dump(x, depth + 1) for x in op]
+    if isinstance(op, dict):
+        return [(full_dump(k, depth + 1), full_dump(v, depth + 1)) for k, v in op.items()]
+    d = getattr(op, '__dict__', None)
+    if d is not None and type(op).__module__.endswith('ast_ops'):
+        items = sorted(d.items())
+        for sname in getattr(type(op), '__slots__', ()) or ():
+            if hasattr(op, sname) and sname not in d:
+                items.append((sname, getattr(op, sname)))
+        return (type(op).__name__, [(k, full_dump(v, depth + 1)) for k, v in items])
+    return repr(op)
+
+
 class Real:
     """One real parser with a token recorder on its lexer."""
 
@@ -113,6 +131,7 @@ class Real:
             if self.ntok and self.last_tok is None and not self.lex_failed:
                 return ('dead-other', 'EOF', e)
             return ('other', e)
+        self.last_tree = tree
         return ('ok', neutral(tree))
 
     def tokens(self, text):
